@@ -55,7 +55,7 @@ theorem inputsOK (v : I32) : InputsOK circ (inpOf v) := by
   · rename_i hi
     subst hi
     injection h with h
-    exact ⟨"A", v, 5, rfl, h.symm⟩
+    exact Or.inr ⟨"A", v, 5, rfl, h.symm⟩
   · cases h
 
 theorem inputsAgree (v : I32) : InputsAgree nodes bind (inpOf v) (envOf v) := by
@@ -81,13 +81,21 @@ theorem inputsAgree (v : I32) : InputsAgree nodes bind (inpOf v) (envOf v) := by
     | 2, hbind, _ => injection hbind with h; injection h with he _; subst he; rfl
     | 3, hbind, _ => injection hbind with h; injection h with he _; subst he; rfl
     | (k + 4), hbind, _ => simp [bind] at hbind
-  · intro e he
-    unfold inpOf at he
-    split at he
-    · rename_i h0
-      subst h0
-      exact ⟨0, "a", "A", 5, "A", by decide, rfl, rfl⟩
-    · exact absurd rfl he
+  · refine ⟨?_, ?_⟩
+    · intro e he
+      unfold inpOf at he
+      split at he
+      · rename_i h0
+        subst h0
+        exact Or.inl ⟨0, "a", "A", 5, "A", by decide, rfl, rfl⟩
+      · exact absurd rfl he
+    · intro n k e hnode _
+      match n, hnode with
+      | 0, hnode => simp [nodes] at hnode
+      | 1, hnode => simp [nodes] at hnode
+      | 2, hnode => simp [nodes] at hnode
+      | 3, hnode => simp [nodes] at hnode
+      | (j + 4), hnode => simp [nodes] at hnode
 
 /-- the closed corollary: from tick 7 on, for every input value `v`, combinator 6 shows `v || (-v > 3)` -/
 theorem holds_for_all_inputs (v : I32) (t : Nat) (ht : 7 ≤ t) :
